@@ -664,6 +664,35 @@ def _RandomState(fr, seed=None):
     return make_rng(seed, fr)
 
 
+CHOICE = z3.Function('CHOICE', z3.IntSort(), z3.IntSort(), z3.IntSort(), z3.IntSort())   # tape, pos, i
+
+
+@L.method('rng.choice')
+def _rng_choice(fr, rng, a, size=None, replace=True, p=None):
+    """assumed contract of RandomState.choice(a, size, p=p) for an integer population a and an integer size: a
+    vector of `size` values in [0, a) determined by the generator state (draw number `pos` of the tape), the
+    generator advances by one draw; probabilities that are not a distribution over [0, a) are rejected
+    (uninterpreted predicate probs.valid; a length other than a is a ValueError)."""
+    ctx = fr.ctx
+    if not (isinstance(a, int) or (O.is_sym(a) and z3.is_int(a))) or size is None or isinstance(size, (tuple, list, Tn)) or replace is not True:
+        raise Unsupported("RandomState.choice outside the modelled form choice(int, size=int, p=...)")
+    ctx.may_raise(a <= 0, 'ValueError')
+    ctx.may_raise(size < 0, 'ValueError')
+    if p is not None:
+        if not isinstance(p, Tn) or p.rank != 1:
+            raise Unsupported("choice with probabilities that are not a vector")
+        ctx.may_raise(O.ne(p.shape[0], a), 'ValueError')
+        if ctx.branch(Not(z3.Bool('probs.valid'))):
+            raise SymRaise('ValueError', 'contract:RandomState.choice')
+    tape, pos = rng.attrs['tape'], rng.attrs['pos']
+    tt, pp = O.to_z3(tape), O.to_z3(pos)
+    q = z3.Int('cq')
+    ctx.assume(z3.ForAll([q], z3.And(CHOICE(tt, pp, q) >= 0, CHOICE(tt, pp, q) < O.to_z3(a)), patterns=[CHOICE(tt, pp, q)]))
+    ctx.trusted.add('assumed: RandomState.choice(n, size, p) returns `size` values in [0, n) determined by the generator state; invalid probabilities raise')
+    rng.attrs['pos'] = pos + 1
+    return Tn.fresh([size], lambda i: CHOICE(tt, pp, O.to_z3(i)), 'int', lib='np')
+
+
 @L.method('rng.shuffle')
 def _rng_shuffle(fr, rng, t):
     if not isinstance(t, Tn) or t.rank != 1:
